@@ -68,7 +68,8 @@ def run(R, tier):
     # custom (device-defined) codes are classified by their number as well
     if "Custom" in ecodes:
         bad = []
-        for code in (-100, -199, -200, -299, -300, -399, -400, -499, -500, -600, -700, -800, 1, 100, -1, -99):
+        # (incl. the ends of the i16 range: `-code` does not exist for -32768 - seed C13-P)
+        for code in (-100, -199, -200, -299, -300, -399, -400, -499, -500, -600, -700, -800, 1, 100, -1, -99, -899, -900, -32767, -32768, 32767):
             errv = AggV("scpi::error::Error", {0: EnumV(EC, "Custom", ecodes["Custom"], {0: K(code), 1: RefV(Cell(fdai.BytesV(b"custom"), "msg"))}), 1: fdai.mk_option(None)})
             dev = DM.Dev(esr=0, regs=regs())
             rs = DM.run(deng, b, dev, [RefV(Cell(SymV("device", "device"), "dev"), (), True), errv])
